@@ -15,6 +15,7 @@ from concurrent.futures import ThreadPoolExecutor
 from fractions import Fraction
 
 from harness.lib import boot
+from harness.lib.coqrun import RUN_ROOT
 from harness.lib.coqrun import qlit, zlit, blit, listlit, run_mismatch_cases, BUILD
 from harness.lib.ctx import guarded
 
@@ -38,7 +39,7 @@ Definition argsclose (tol : Q) (a b : args Q) : bool :=
 """ % qlit(math.pi)
 
 TAGSUF = os.environ.get("C10_RUNTAG", "")   # lets two runs (mutation self-test) use separate scratch dirs
-RUNDIR = os.path.join(BUILD, "run", "C10jobs" + TAGSUF)
+RUNDIR = os.path.join(RUN_ROOT, "C10jobs" + TAGSUF)
 WAVELEN, NMED = 0.66, 1.33
 K = 2 * math.pi / (WAVELEN / NMED)
 
